@@ -144,6 +144,10 @@ func confirm(nb *nativeBuild, inst Instance, v interp.Violation) (bool, string) 
 			// interleavings that need "the first finished before the second started"
 			extra = []string{"GOMAXPROCS=1"}
 		}
+		if t >= tries-2 && len(v.Model) > 0 {
+			// the last attempts hold events back for up to 3.2 s (time-outs measured in seconds)
+			extra = append(extra, "VND_HOLD_ITER=1600")
+		}
 		r := nb.run(inst.Func, v.Model, 20*time.Second, extra...)
 		last = r
 		switch v.Kind {
